@@ -1,6 +1,695 @@
-//! Requests concerning the shell of the crate (archives, CLI, converter) -- filled in later.
-use std::io::Write;
+//! Requests concerning colour slices (C20), result archives (C16), the CLI (C17) and the
+//! aeon-to-bnet converter (C19).
+use crate::*;
+use biodivine_hctl_model_checker::generate_output::build_result_archive;
+use biodivine_hctl_model_checker::load_inputs::{load_bdd_bundle, load_formulae};
+use biodivine_lib_param_bn::symbolic_async_graph::GraphColors;
+use std::io::Read as IoRead;
+use std::process::{Command, Stdio};
 
-pub fn run(fields: &[&str], _cases: &mut impl Write, out: &mut impl Write, _line: &str) {
-    writeln!(out, "{} SKIP unknown-request", fields.get(1).unwrap_or(&"?")).unwrap();
+fn work_dir() -> String {
+    let d = std::env::var("HCTL_WORK").unwrap_or_else(|_| "/verif/.build/work/tmp".to_string());
+    std::fs::create_dir_all(&d).ok();
+    d
+}
+
+fn bin_dir() -> String {
+    std::env::var("HCTL_BIN_DIR").unwrap_or_else(|_| "/verif/.build/target-bin/release".to_string())
+}
+
+fn clean(s: &str) -> String {
+    s.replace(['\t', '\n', '\r'], " ").chars().take(300).collect()
+}
+
+pub fn run(fields: &[&str], cases: &mut impl Write, out: &mut impl Write, _line: &str) {
+    let id = fields.get(1).copied().unwrap_or("?");
+    let r = catch_unwind(AssertUnwindSafe(|| match fields[0] {
+        "SLICE" => run_slice(fields, cases, out),
+        "ARCH" => run_arch(fields, out),
+        "CLI" => run_cli(fields, out),
+        "CONV" => run_conv(fields, out),
+        "LOADF" => run_loadf(fields, out),
+        _ => writeln!(out, "{id} SKIP unknown-request").unwrap(),
+    }));
+    if let Err(e) = r {
+        writeln!(out, "{id} PANIC {}", panic_msg(e)).unwrap();
+    }
+}
+
+/// SLICE id k net formulas [maxcolours]
+/// For every valid colour c: the parametrised result sliced at c (reported as the
+/// "implementation answer" of the sub-case id#c<j>, whose model/oracle case is the network
+/// instantiated by c, given by its sliced update tables) and the result computed on
+/// pick_witness(c) (sub-case id#w<j>).
+fn run_slice(fields: &[&str], cases: &mut impl Write, out: &mut impl Write) {
+    let id = fields[1];
+    let k: usize = fields[2].parse().unwrap();
+    let w = match build_world(fields[3], k) {
+        Ok(w) => w,
+        Err(e) => {
+            writeln!(out, "{id} SKIP network:{}", clean(&e)).unwrap();
+            return;
+        }
+    };
+    let formulas: Vec<String> = split_list(fields[4]).iter().map(|h| unhex(h)).collect();
+    let maxc: usize = fields.get(5).map(|x| x.parse().unwrap()).unwrap_or(16);
+    let fs: Vec<&str> = formulas.iter().map(|s| s.as_str()).collect();
+    let p = w.p();
+    let n = w.n();
+    let res = match model_check_multiple_formulae(fs.clone(), &w.graph) {
+        Ok(r) => r,
+        Err(e) => {
+            writeln!(out, "{id} ERR {}", clean(&e)).unwrap();
+            return;
+        }
+    };
+    let canon = w.graph.symbolic_context().as_canonical_context();
+    let ext_set = w.graph.symbolic_context().bdd_variable_set();
+    let can_set = canon.bdd_variable_set();
+    let order: Vec<BddVariable> = w
+        .order_pn
+        .iter()
+        .map(|v| can_set.var_by_name(ext_set.name_of(*v).as_str()).unwrap())
+        .collect();
+    let bits: Vec<String> = res.iter().map(|s| bits_of(s.as_bdd(), &order)).collect();
+    let (names, upd, unit) = w.describe();
+    let upd_tables: Vec<&str> = upd.split(',').collect();
+    writeln!(out, "{id} OK {}", bits.join(",")).unwrap();
+    writeln!(out, "{id} INFO {p} {n}").unwrap();
+    let ncol = 1usize << p;
+    let valid: Vec<usize> = (0..ncol)
+        .filter(|c| unit.as_bytes()[c << n] == b'1')
+        .collect();
+    let step = std::cmp::max(1, valid.len() / maxc);
+    for (cnt, c) in valid.iter().step_by(step).enumerate() {
+        if cnt >= maxc {
+            break;
+        }
+        let lo = c << n;
+        let hi = lo + (1 << n);
+        // the network instantiated by colour c, as tables over the states only
+        let upd_c: Vec<&str> = upd_tables.iter().map(|t| &t[lo..hi]).collect();
+        let unit_c = "1".repeat(1 << n);
+        for suffix in ["", "#o"] {
+            writeln!(
+                cases,
+                "EVAL\t{id}#c{c}{suffix}\ts{}\t0\t{n}\t{k}\t{names}\t{}\t{unit_c}\t-\t{}",
+                if suffix.is_empty() { "" } else { "o" },
+                upd_c.join(","),
+                fields[4]
+            )
+            .unwrap();
+        }
+        let sliced: Vec<&str> = bits.iter().map(|b| &b[lo..hi]).collect();
+        writeln!(out, "{id}#c{c} OK {}", sliced.join(",")).unwrap();
+        writeln!(out, "{id}#c{c} INFO 0 {n}").unwrap();
+        // pick_witness of the singleton colour
+        let mut partial = Vec::new();
+        for (j, var) in w.order_pn[..p].iter().enumerate() {
+            partial.push((*var, (c >> (p - 1 - j)) & 1 == 1));
+        }
+        let pv = BddPartialValuation::from_values(&partial);
+        let clause = w
+            .graph
+            .symbolic_context()
+            .bdd_variable_set()
+            .mk_conjunctive_clause(&pv);
+        let colour = GraphColors::new(clause, w.graph.symbolic_context());
+        let colour = colour.intersect(w.graph.unit_colors());
+        let r = catch_unwind(AssertUnwindSafe(|| -> Result<String, String> {
+            let witness = w.graph.pick_witness(&colour);
+            let g2 = get_extended_symbolic_graph(&witness, k as u16)?;
+            let r2 = model_check_multiple_formulae(fs.clone(), &g2)?;
+            let c2 = g2.symbolic_context().as_canonical_context();
+            let order2 = model_order(&c2, false);
+            if c2.num_parameter_variables() != 0 {
+                return Err("witness network still has parameters".into());
+            }
+            Ok(r2
+                .iter()
+                .map(|s| bits_of(s.as_bdd(), &order2))
+                .collect::<Vec<_>>()
+                .join(","))
+        }));
+        match r {
+            Ok(Ok(s)) => writeln!(out, "{id}#w{c} OK {s}").unwrap(),
+            Ok(Err(e)) => writeln!(out, "{id}#w{c} ERR {}", clean(&e)).unwrap(),
+            Err(e) => writeln!(out, "{id}#w{c} PANIC {}", panic_msg(e)).unwrap(),
+        }
+    }
+}
+
+/// ARCH id k net ctxspecs formulas usage-formulas
+/// Write label -> set map with build_result_archive, read it back with a graph rebuilt from
+/// the archived model, compare.
+fn run_arch(fields: &[&str], out: &mut impl Write) {
+    let id = fields[1];
+    let k: usize = fields[2].parse().unwrap();
+    let w = match build_world(fields[3], k) {
+        Ok(w) => w,
+        Err(e) => {
+            writeln!(out, "{id} SKIP network:{}", clean(&e)).unwrap();
+            return;
+        }
+    };
+    let mut sets: HashMap<String, GraphColoredVertices> = HashMap::new();
+    for item in split_list(fields[4]) {
+        if item == "-" {
+            continue;
+        }
+        let (label, spec) = item.split_once('=').unwrap();
+        match make_context_set_pub(&w, spec) {
+            Ok(s) => {
+                sets.insert(unhex(label), s);
+            }
+            Err(e) => {
+                writeln!(out, "{id} SKIP context:{}", clean(&e)).unwrap();
+                return;
+            }
+        }
+    }
+    let formulas: Vec<String> = split_list(fields[5]).iter().map(|h| unhex(h)).collect();
+    let usage: Vec<String> = split_list(fields.get(6).copied().unwrap_or("")).iter().map(|h| unhex(h)).collect();
+    let path = format!("{}/arch-{}-{}.zip", work_dir(), std::process::id(), id);
+    let mut problems: Vec<String> = Vec::new();
+    if let Err(e) = build_result_archive(sets.clone(), &path, w.bn.to_string().as_str(), formulas.clone()) {
+        writeln!(out, "{id} ERR write:{}", clean(&e.to_string())).unwrap();
+        return;
+    }
+    // entries
+    let file = std::fs::File::open(&path).unwrap();
+    let mut zip = zip::ZipArchive::new(file).unwrap();
+    let names: Vec<String> = zip.file_names().map(|s| s.to_string()).collect();
+    if names.len() != sets.len() + 2 {
+        problems.push(format!("archive has {} entries for {} sets", names.len(), sets.len()));
+    }
+    let mut model_text = String::new();
+    match zip.by_name("model.aeon") {
+        Ok(mut f) => {
+            f.read_to_string(&mut model_text).unwrap();
+        }
+        Err(_) => problems.push("model.aeon missing".into()),
+    }
+    let mut formulae_text = String::new();
+    match zip.by_name("formulae.txt") {
+        Ok(mut f) => {
+            f.read_to_string(&mut formulae_text).unwrap();
+        }
+        Err(_) => problems.push("formulae.txt missing".into()),
+    }
+    let lines: Vec<&str> = formulae_text.lines().collect();
+    if lines.len() != formulas.len() || lines.iter().zip(formulas.iter()).any(|(a, b)| *a != b.as_str()) {
+        problems.push("formulae.txt does not list the formulae in order".into());
+    }
+    // graph rebuilt from the archived model
+    match BooleanNetwork::try_from(model_text.as_str()).and_then(|bn2| get_extended_symbolic_graph(&bn2, k as u16)) {
+        Err(e) => problems.push(format!("archived model does not load: {}", clean(&e))),
+        Ok(g2) => {
+            let c1 = w.graph.symbolic_context();
+            let c2 = g2.symbolic_context();
+            if c1.bdd_variable_set().num_vars() != c2.bdd_variable_set().num_vars()
+                || (0..c1.bdd_variable_set().num_vars()).any(|i| {
+                    let v = c1.bdd_variable_set().variables()[i as usize];
+                    let v2 = c2.bdd_variable_set().variables()[i as usize];
+                    c1.bdd_variable_set().name_of(v) != c2.bdd_variable_set().name_of(v2)
+                })
+            {
+                problems.push("symbolic context of the archived model differs".into());
+            } else {
+                match load_bdd_bundle(&path, c2) {
+                    Err(e) => problems.push(format!("load_bdd_bundle: {}", clean(&e))),
+                    Ok(loaded) => {
+                        if loaded.len() != sets.len() {
+                            problems.push(format!("{} sets written, {} loaded", sets.len(), loaded.len()));
+                        }
+                        for (l, s) in sets.iter() {
+                            match loaded.get(l) {
+                                None => problems.push(format!("label {} not reloaded", hex(l))),
+                                Some(s2) => {
+                                    if s2.as_bdd() != s.as_bdd() {
+                                        problems.push(format!("set {} differs after reload", hex(l)));
+                                    }
+                                }
+                            }
+                        }
+                        // reloaded sets used as context have the same effect
+                        for f in &usage {
+                            let a = model_check_extended_formula(f.as_str(), &w.graph, &sets);
+                            let b = model_check_extended_formula(f.as_str(), &g2, &loaded);
+                            let same = match (&a, &b) {
+                                (Ok(x), Ok(y)) => x.as_bdd() == y.as_bdd(),
+                                (Err(_), Err(_)) => true,
+                                _ => false,
+                            };
+                            if !same {
+                                problems.push(format!("formula {} differs with reloaded context", hex(f)));
+                            }
+                        }
+                    }
+                }
+            }
+        }
+    }
+    std::fs::remove_file(&path).ok();
+    if problems.is_empty() {
+        writeln!(out, "{id} OK {} sets, {} formulae", sets.len(), formulas.len()).unwrap();
+    } else {
+        writeln!(out, "{id} ERR {}", clean(&problems.join("; "))).unwrap();
+    }
+}
+
+pub fn make_context_set_pub(w: &World, spec: &str) -> Result<GraphColoredVertices, String> {
+    crate::make_context_set_for_shell(w, spec)
+}
+
+/// run a binary with arguments and stdin, return (exit ok, stdout)
+fn run_bin(name: &str, args: &[&str], stdin: Option<&str>) -> Result<(bool, String), String> {
+    let path = format!("{}/{}", bin_dir(), name);
+    let mut child = Command::new(&path)
+        .args(args)
+        .stdin(Stdio::piped())
+        .stdout(Stdio::piped())
+        .stderr(Stdio::piped())
+        .spawn()
+        .map_err(|e| format!("cannot run {path}: {e}"))?;
+    if let Some(s) = stdin {
+        use std::io::Write as W2;
+        child.stdin.as_mut().unwrap().write_all(s.as_bytes()).ok();
+    }
+    drop(child.stdin.take());
+    let o = child.wait_with_output().map_err(|e| e.to_string())?;
+    Ok((o.status.success(), String::from_utf8_lossy(&o.stdout).to_string() + &String::from_utf8_lossy(&o.stderr)))
+}
+
+fn strip_ansi(s: &str) -> String {
+    let mut out = String::new();
+    let mut it = s.chars().peekable();
+    while let Some(c) = it.next() {
+        if c == '\u{1b}' {
+            for d in it.by_ref() {
+                if d.is_ascii_alphabetic() {
+                    break;
+                }
+            }
+        } else {
+            out.push(c);
+        }
+    }
+    out
+}
+
+/// CLI id fmt model-text formula-file-text printopt ctxspecs
+/// fmt in aeon|bnet|sbml ; compares the binary's printed counts, listed states and the -o
+/// archive with the library API.
+fn run_cli(fields: &[&str], out: &mut impl Write) {
+    let id = fields[1];
+    let fmt = fields[2];
+    let model_text = unhex(fields[3]);
+    let ftext = unhex(fields[4]);
+    let popt = fields[5];
+    let ctxspec = fields.get(6).copied().unwrap_or("-");
+    let dir = format!("{}/cli-{}-{}", work_dir(), std::process::id(), id);
+    std::fs::create_dir_all(&dir).unwrap();
+    let mpath = format!("{dir}/model.{fmt}");
+    let fpath = format!("{dir}/formulae.txt");
+    std::fs::write(&mpath, &model_text).unwrap();
+    std::fs::write(&fpath, &ftext).unwrap();
+    let opath = format!("{dir}/out.zip");
+    let mut problems: Vec<String> = Vec::new();
+
+    // the library side
+    let bn = match BooleanNetwork::try_from_file(&mpath) {
+        Ok(b) => b,
+        Err(e) => {
+            // the binary must report this as a message
+            let r = run_bin("hctl-model-checker", &[&mpath, &fpath], None);
+            std::fs::remove_dir_all(&dir).ok();
+            match r {
+                Ok((true, o)) if o.contains("Model is corrupted") => {
+                    writeln!(out, "{id} OK unreadable-model-reported").unwrap()
+                }
+                Ok((ok, o)) => writeln!(out, "{id} ERR unreadable model ({}) not reported: exit ok={ok} {}", clean(&e), clean(&o)).unwrap(),
+                Err(e2) => writeln!(out, "{id} SKIP {}", clean(&e2)).unwrap(),
+            }
+            return;
+        }
+    };
+    let formulas = load_formulae(&fpath).unwrap_or_default();
+    // expected formula list by an independent reading of the file
+    let expected: Vec<String> = ftext
+        .split('\n')
+        .map(|l| l.strip_suffix('\r').unwrap_or(l))
+        .map(|l| l.trim())
+        .filter(|l| !l.is_empty() && !l.starts_with('#'))
+        .map(|l| l.to_string())
+        .collect();
+    if formulas != expected {
+        problems.push(format!("load_formulae returned {:?}, the file lists {:?}", formulas, expected));
+    }
+    // number of spare sets: enough for every formula
+    let use_ext = ctxspec != "-";
+    let plain_ctx = SymbolicContext::new(&bn).unwrap();
+    let mut maxv = 0usize;
+    let mut parse_error = false;
+    for f in &formulas {
+        let t = if use_ext {
+            parse_and_minimize_extended_formula(&plain_ctx, f)
+        } else {
+            parse_and_minimize_hctl_formula(&plain_ctx, f)
+        };
+        match t {
+            Ok(t) => {
+                maxv = maxv.max(biodivine_hctl_model_checker::mc_utils::collect_unique_hctl_vars(t).len())
+            }
+            Err(_) => parse_error = true,
+        }
+    }
+    let graph = match get_extended_symbolic_graph(&bn, maxv as u16) {
+        Ok(g) => g,
+        Err(e) => {
+            std::fs::remove_dir_all(&dir).ok();
+            writeln!(out, "{id} SKIP graph:{}", clean(&e)).unwrap();
+            return;
+        }
+    };
+    // optional context archive
+    let mut context: HashMap<String, GraphColoredVertices> = HashMap::new();
+    let cpath = format!("{dir}/ctx.zip");
+    if use_ext {
+        let w = World {
+            bn: bn.clone(),
+            order_pn: model_order(graph.symbolic_context(), false),
+            order_full: model_order(graph.symbolic_context(), true),
+            graph: graph.clone(),
+            k: maxv,
+        };
+        for item in split_list(ctxspec) {
+            if item == "-" {
+                continue;
+            }
+            let (label, spec) = item.split_once('=').unwrap();
+            if let Ok(s) = make_context_set_pub(&w, spec) {
+                context.insert(unhex(label), s);
+            }
+        }
+        build_result_archive(context.clone(), &cpath, bn.to_string().as_str(), vec![]).unwrap();
+    }
+    let mut args: Vec<&str> = vec![&mpath, &fpath, "-o", &opath, "-p", popt];
+    if use_ext {
+        args.push("-e");
+        args.push(&cpath);
+    }
+    let (ok, stdout) = match run_bin("hctl-model-checker", &args, None) {
+        Ok(x) => x,
+        Err(e) => {
+            std::fs::remove_dir_all(&dir).ok();
+            writeln!(out, "{id} SKIP {}", clean(&e)).unwrap();
+            return;
+        }
+    };
+    let stdout = strip_ansi(&stdout);
+    if !ok {
+        problems.push(format!("binary exited abnormally: {}", clean(&stdout)));
+    }
+    let fs: Vec<&str> = formulas.iter().map(|s| s.as_str()).collect();
+    let lib = if use_ext {
+        model_check_multiple_extended_formulae_dirty(fs.clone(), &graph, &context)
+    } else {
+        model_check_multiple_formulae_dirty(fs.clone(), &graph)
+    };
+    match lib {
+        Err(e) => {
+            // invalid formulae / missing context must be reported as a message, no archive
+            if !ok || std::path::Path::new(&opath).exists() {
+                problems.push(format!("library rejects the input ({}), binary: ok={ok}", clean(&e)));
+            }
+            let _ = parse_error;
+        }
+        Ok(results) => {
+            // archive
+            match load_bdd_bundle(&opath, graph.symbolic_context()) {
+                Err(e) => problems.push(format!("result archive unreadable: {}", clean(&e))),
+                Ok(loaded) => {
+                    if loaded.len() != results.len() {
+                        problems.push(format!("{} results archived, {} formulae", loaded.len(), results.len()));
+                    }
+                    for (i, r) in results.iter().enumerate() {
+                        match loaded.get(&format!("formula-{i}")) {
+                            None => problems.push(format!("formula-{i} missing in the archive")),
+                            Some(s) => {
+                                if s.as_bdd() != r.as_bdd() {
+                                    problems.push(format!("archived set formula-{i} differs from the library result"));
+                                }
+                            }
+                        }
+                    }
+                }
+            }
+            // printed counts
+            if popt != "no-print" {
+                let mut blocks: Vec<(String, Vec<String>)> = Vec::new();
+                let lines: Vec<&str> = stdout.lines().collect();
+                let mut i = 0;
+                while i < lines.len() {
+                    if let Some(f) = lines[i].strip_prefix("Formula: ") {
+                        let mut body = Vec::new();
+                        let mut j = i + 1;
+                        while j < lines.len() && !lines[j].starts_with("Formula: ") && !lines[j].starts_with("Evaluating formula") && !lines[j].starts_with("Total computation") {
+                            body.push(lines[j].to_string());
+                            j += 1;
+                        }
+                        blocks.push((f.to_string(), body));
+                        i = j;
+                    } else {
+                        i += 1;
+                    }
+                }
+                if blocks.len() != results.len() {
+                    problems.push(format!("{} result blocks printed for {} formulae", blocks.len(), results.len()));
+                } else {
+                    for (i, (f, body)) in blocks.iter().enumerate() {
+                        if *f != formulas[i] {
+                            problems.push(format!("block {i} is for formula {:?}, expected {:?}", f, formulas[i]));
+                        }
+                        let san = biodivine_hctl_model_checker::postprocessing::sanitizing::sanitize_colored_vertices(&graph, &results[i]);
+                        let want = [
+                            format!("{} results in total", san.approx_cardinality()),
+                            format!("{} unique colors", san.colors().approx_cardinality()),
+                            format!("{} unique states", san.vertices().approx_cardinality()),
+                        ];
+                        for wl in want.iter() {
+                            if !body.iter().any(|l| l == wl) {
+                                problems.push(format!("formula {i}: expected line {:?}, printed {:?}", wl, body.iter().filter(|l| l.contains("results") || l.contains("unique")).collect::<Vec<_>>()));
+                            }
+                        }
+                        if popt == "exhaustive" {
+                            let names: Vec<String> = graph.variables().map(|v| graph.get_variable_name(v)).collect();
+                            let mut want_states: Vec<String> = Vec::new();
+                            for val in san.vertices().materialize().iter() {
+                                use biodivine_lib_param_bn::biodivine_std::bitvector::BitVector;
+                                let mut s = String::new();
+                                for (j, nm) in names.iter().enumerate() {
+                                    if val.get(j) {
+                                        s.push_str(&format!("{nm} & "));
+                                    } else {
+                                        s.push_str(&format!("~{nm} & "));
+                                    }
+                                }
+                                want_states.push(s);
+                            }
+                            let mut got: Vec<String> = body
+                                .iter()
+                                .filter(|l| l.contains(" & "))
+                                .map(|l| l.to_string())
+                                .collect();
+                            got.sort();
+                            want_states.sort();
+                            if got != want_states {
+                                problems.push(format!("formula {i}: listed states {:?}, expected {:?}", got, want_states));
+                            }
+                        }
+                    }
+                }
+            }
+        }
+    }
+    std::fs::remove_dir_all(&dir).ok();
+    if problems.is_empty() {
+        writeln!(out, "{id} OK {} formulae maxvars={maxv}", formulas.len()).unwrap();
+    } else {
+        writeln!(out, "{id} ERR {}", clean(&problems.join("; "))).unwrap();
+    }
+}
+
+/// LOADF id file-text : load_formulae on the text vs the specification of the loader
+fn run_loadf(fields: &[&str], out: &mut impl Write) {
+    let id = fields[1];
+    let text = unhex(fields[2]);
+    let path = format!("{}/loadf-{}-{}.txt", work_dir(), std::process::id(), id);
+    std::fs::write(&path, &text).unwrap();
+    let r = load_formulae(&path);
+    std::fs::remove_file(&path).ok();
+    match r {
+        Ok(v) => writeln!(out, "{id} OK {}", v.iter().map(|x| hex(x)).collect::<Vec<_>>().join(",")).unwrap(),
+        Err(e) => writeln!(out, "{id} ERR {}", clean(&e)).unwrap(),
+    }
+}
+
+/// truth table of an update function BDD over (its own parameter variables, state variables)
+fn family_of(ctx: &SymbolicContext, f: &Bdd) -> std::collections::BTreeSet<String> {
+    let params: Vec<BddVariable> = ctx
+        .parameter_variables()
+        .iter()
+        .filter(|p| f.support_set().contains(p))
+        .cloned()
+        .collect();
+    let states: Vec<BddVariable> = ctx.state_variables().clone();
+    let total = f.num_vars();
+    let mut fam = std::collections::BTreeSet::new();
+    for pc in 0..(1usize << params.len()) {
+        let mut table = String::new();
+        for sc in 0..(1usize << states.len()) {
+            let mut val = BddValuation::all_false(total);
+            for (j, p) in params.iter().enumerate() {
+                val.set_value(*p, (pc >> j) & 1 == 1);
+            }
+            for (j, s) in states.iter().enumerate() {
+                val.set_value(*s, (sc >> (states.len() - 1 - j)) & 1 == 1);
+            }
+            table.push(if f.eval_in(&val) { '1' } else { '0' });
+        }
+        fam.insert(table);
+    }
+    fam
+}
+
+/// CONV id aeon-text : run the converter, reload its output as bnet, compare function families
+fn run_conv(fields: &[&str], out: &mut impl Write) {
+    let id = fields[1];
+    let text = unhex(fields[2]);
+    let bn = match BooleanNetwork::try_from(text.as_str()) {
+        Ok(b) => b,
+        Err(e) => {
+            writeln!(out, "{id} SKIP network:{}", clean(&e)).unwrap();
+            return;
+        }
+    };
+    let (ok, stdout) = match run_bin("convert-aeon-to-bnet", &[], Some(&text)) {
+        Ok(x) => x,
+        Err(e) => {
+            writeln!(out, "{id} SKIP {}", clean(&e)).unwrap();
+            return;
+        }
+    };
+    if !ok {
+        writeln!(out, "{id} ERR converter failed: {}", clean(&stdout)).unwrap();
+        return;
+    }
+    let bn2 = match BooleanNetwork::try_from_bnet(stdout.as_str()) {
+        Ok(b) => b,
+        Err(e) => {
+            writeln!(out, "{id} ERR output does not load as bnet: {} // {}", clean(&e), clean(&stdout)).unwrap();
+            return;
+        }
+    };
+    let ctx1 = SymbolicContext::new(&bn).unwrap();
+    let ctx2 = SymbolicContext::new(&bn2).unwrap();
+    let names1: Vec<String> = bn.variables().map(|v| bn.get_variable_name(v).clone()).collect();
+    let mut problems: Vec<String> = Vec::new();
+    // every original variable is a variable of the output
+    for nm in &names1 {
+        if bn2.as_graph().find_variable(nm).is_none() {
+            problems.push(format!("variable {nm} missing in the output"));
+        }
+    }
+    if !problems.is_empty() {
+        writeln!(out, "{id} ERR {}", clean(&problems.join("; "))).unwrap();
+        return;
+    }
+    let fresh: Vec<String> = bn2
+        .variables()
+        .map(|v| bn2.get_variable_name(v).clone())
+        .filter(|nm| !names1.contains(nm))
+        .collect();
+    for v in bn.variables() {
+        let nm = bn.get_variable_name(v);
+        let v2 = bn2.as_graph().find_variable(nm).unwrap();
+        let has_rule = !bn.regulators(v).is_empty() || bn.get_update_function(v).is_some();
+        let f2 = bn2.get_update_function(v2);
+        if !has_rule || (bn.regulators(v).is_empty() && bn.get_update_function(v).is_some()) {
+            // zero-regulator variables are skipped by the converter: kept as they are
+            if !has_rule && f2.is_some() {
+                problems.push(format!("{nm} had neither regulators nor a function but got a rule"));
+            }
+            if !has_rule {
+                continue;
+            }
+        }
+        // family of the input function: all instantiations of its parameters
+        let f1 = if let Some(f) = bn.get_update_function(v) {
+            ctx1.mk_fn_update_true(f)
+        } else {
+            ctx1.mk_implicit_function_is_true(v, &bn.regulators(v))
+        };
+        let fam1 = family_of(&ctx1, &f1);
+        // family of the output function: all valuations of the fresh inputs, as tables over
+        // the original variables (in the original order)
+        let f2 = match f2 {
+            Some(f) => ctx2.mk_fn_update_true(f),
+            None => {
+                problems.push(format!("{nm} has no update function in the output"));
+                continue;
+            }
+        };
+        if !f2.support_set().iter().all(|x| ctx2.state_variables().contains(x)) {
+            problems.push(format!("{nm}: output function still has parameters"));
+            continue;
+        }
+        let orig2: Vec<BddVariable> = names1
+            .iter()
+            .map(|n| ctx2.get_state_variable(bn2.as_graph().find_variable(n).unwrap()))
+            .collect();
+        let fresh2: Vec<BddVariable> = fresh
+            .iter()
+            .map(|n| ctx2.get_state_variable(bn2.as_graph().find_variable(n).unwrap()))
+            .filter(|x| f2.support_set().contains(x))
+            .collect();
+        let total = f2.num_vars();
+        let mut fam2 = std::collections::BTreeSet::new();
+        for fc in 0..(1usize << fresh2.len()) {
+            let mut table = String::new();
+            for sc in 0..(1usize << orig2.len()) {
+                let mut val = BddValuation::all_false(total);
+                for (j, p) in fresh2.iter().enumerate() {
+                    val.set_value(*p, (fc >> j) & 1 == 1);
+                }
+                for (j, s) in orig2.iter().enumerate() {
+                    val.set_value(*s, (sc >> (orig2.len() - 1 - j)) & 1 == 1);
+                }
+                table.push(if f2.eval_in(&val) { '1' } else { '0' });
+            }
+            fam2.insert(table);
+        }
+        if fam1 != fam2 {
+            problems.push(format!(
+                "{nm}: input function has {} instantiations, output ranges over {} functions; only-in-input {:?} only-in-output {:?}",
+                fam1.len(),
+                fam2.len(),
+                fam1.difference(&fam2).take(2).collect::<Vec<_>>(),
+                fam2.difference(&fam1).take(2).collect::<Vec<_>>()
+            ));
+        }
+    }
+    // fresh variables must be free inputs; no other targets
+    for nm in &fresh {
+        let v2 = bn2.as_graph().find_variable(nm).unwrap();
+        if bn2.get_update_function(v2).is_some() && !bn2.regulators(v2).is_empty() {
+            problems.push(format!("fresh variable {nm} is not a free input"));
+        }
+    }
+    if problems.is_empty() {
+        writeln!(out, "{id} OK {} variables, {} fresh inputs", names1.len(), fresh.len()).unwrap();
+    } else {
+        writeln!(out, "{id} ERR {}", clean(&problems.join("; "))).unwrap();
+    }
 }
